@@ -81,6 +81,11 @@ Definition is_key_frame_265 (data : list N) : result bool :=
     | [] => Panic
     end.
 
+(* isKeyFrame as the bool WriteRTP uses (the Panic and fuel branches of the
+   model are unreachable: c35_ap_walk_no_panic) *)
+Definition isk265 (p : list N) : bool :=
+  match is_key_frame_265 p with Ok b => b | _ => false end.
+
 (* ---------- WriteRTP ---------- *)
 
 (* depacketizer: state D, Unmarshal : D -> payload -> D * (bytes | error) *)
